@@ -14,6 +14,7 @@ import (
 	"github.com/stretchr/testify/require"
 
 	"github.com/prometheus/prometheus/model/labels"
+	"github.com/prometheus/prometheus/model/value"
 	"github.com/prometheus/prometheus/tsdb/chunkenc"
 )
 
@@ -183,4 +184,47 @@ func seedC01cQueryChunkSamples(t *testing.T, db *DB, mint, maxt int64, m *labels
 	}
 	require.NoError(t, ss.Err())
 	return res
+}
+
+// F50 (second site): stale-series compaction of a head whose oldest samples have negative timestamps that are not a
+// multiple of the chunk range.
+func TestF50StaleSeriesCompactionNegativeTimestamps(t *testing.T) {
+	opts := DefaultOptions()
+	opts.MinBlockDuration = 1000
+	opts.MaxBlockDuration = 1000
+	db, err := Open(t.TempDir(), nil, nil, opts, nil)
+	require.NoError(t, err)
+	defer db.Close()
+	db.DisableCompactions()
+	lset := labels.FromStrings("__name__", "stale_one")
+	app := db.Appender(context.Background())
+	for _, s := range []struct {
+		t int64
+		v float64
+	}{{-1500, 1}, {-1200, 2}, {-800, 3}} {
+		_, err := app.Append(0, lset, s.t, s.v)
+		require.NoError(t, err)
+	}
+	_, err = app.Append(0, lset, -700, math.Float64frombits(value.StaleNaN))
+	require.NoError(t, err)
+	_, err = app.Append(0, labels.FromStrings("__name__", "live"), 5000, 1)
+	require.NoError(t, err)
+	require.NoError(t, app.Commit())
+
+	require.NoError(t, db.CompactStaleHead())
+
+	q, err := db.Querier(-10000, 10000)
+	require.NoError(t, err)
+	defer q.Close()
+	ss := q.Select(context.Background(), false, nil, labels.MustNewMatcher(labels.MatchEqual, "__name__", "stale_one"))
+	var got []int64
+	for ss.Next() {
+		it := ss.At().Iterator(nil)
+		for it.Next() != chunkenc.ValNone {
+			ts, _ := it.At()
+			got = append(got, ts)
+		}
+	}
+	require.NoError(t, ss.Err())
+	require.Equal(t, []int64{-1500, -1200, -800, -700}, got)
 }
